@@ -46,6 +46,9 @@ def check(c: Check):
     clause_g(c)
     clause_h(c)
     clause_i(c)
+    from .common import check_exit_code_tests
+    check_exit_code_tests(c, 'C10-j', ['exactly_lib.impls', 'exactly_lib.util.process_execution'], 8,
+                          'what a killed program wrote before it died is used as its output, the failure is not reported')
     from .common import sweep_records
     sweep_records(c, 'C10-rec', ['exactly_lib.util.process_execution', 'exactly_lib.util.file_utils', 'exactly_lib.impls.program_execution', 'exactly_lib.type_val_prims.program'], floor=8)
 
